@@ -443,6 +443,41 @@ package template
 //@   loop 1
 //@     invariant nochange()
 
+// Configuration calls: thin contracts (no nil dereference under the usual precondition, the receiver is
+// returned, the lock is released). None of them looks at the executed flag: known finding
+// C07-option-after-execution.
+//@ func (t *Template) Option(opt ...string) (r *Template)
+//@   serves C08 C07
+//@   requires !isnil(t) && !isnil(t.text)
+//@   ensures self: r == t
+//@   ensures readonly: nochange()
+
+//@ func (t *Template) Funcs(funcMap FuncMap) (r *Template)
+//@   serves C08 C07
+//@   requires !isnil(t) && !isnil(t.text)
+//@   ensures self: r == t
+//@   ensures readonly: nochange()
+
+//@ func (t *Template) Delims(left, right string) (r *Template)
+//@   serves C08
+//@   requires !isnil(t) && !isnil(t.text)
+//@   ensures self: r == t
+//@   ensures readonly: nochange()
+
+//@ func (t *Template) DefinedTemplates() (r string)
+//@   serves C08
+//@   requires !isnil(t) && !isnil(t.text)
+//@   ensures readonly: nochange()
+
+//@ func (t *Template) CSPCompatible() (r *Template)
+//@   serves C08 C07
+//@   requires !isnil(t) && !isnil(t.nameSpace) && !held(t.nameSpace.mu)
+//@   option locks true
+//@   option modifies nameSpace.cspCompatible
+//@   ensures self: r == t
+//@   ensures set: t.nameSpace.cspCompatible && !held(t.nameSpace.mu)
+//@   ensures flagkept: t.nameSpace.escaped == old(t.nameSpace.escaped)
+
 //@ func escapeTemplate(tmpl *Template, node parse.Node, name string) (err error)
 //@   serves C05 C06 C08
 //@   requires !isnil(tmpl) && !isnil(tmpl.nameSpace) && !isnil(tmpl.nameSpace.set)
